@@ -40,6 +40,7 @@ CONSTANTS
   Regulate_,          \* the application asks for the store form of v5.0 PUBLISH packets (regulate_for_store, a pure query)
   OptFlips,           \* options the application may switch on AND off at any time (not only before the first connection)
   FreeIdSends,        \* the application also hands in QoS>0 PUBLISH packets whose identifier it never acquired (must be refused, nothing released)
+  LateSends,          \* the application keeps calling send after the connection asked for the close (before notify_closed)
   Msgs                \* payload tags of PUBLISH packets ("" = empty payload, "m4xx" = 4 bytes, any other tag 2 bytes)
 
 VARIABLES st,    \* Endpoint state of the object under test
@@ -115,7 +116,9 @@ PeerFrames(s, gh) ==
   \cup (IF RogueHandshake /\ gh.conn # "disc"
         THEN { Sized([Pk("connect", v) EXCEPT !.clean = TRUE], 16) } ELSE {})
   \cup (IF RogueHandshake /\ gh.conn = "connected"
-        THEN { Sized(Pk("connack", v), 16), Sized([Pk("connack", v) EXCEPT !.sp = FALSE, !.rm = IF v = "v50" THEN 1 ELSE -1], 16) }
+        THEN { Sized(Pk("connack", v), 16), Sized([Pk("connack", v) EXCEPT !.sp = FALSE, !.rm = IF v = "v50" THEN 1 ELSE -1], 16),
+               \* ... one that claims a resumed session, and one that REFUSES (the content of the second CONNACK must not matter)
+               Sized([Pk("connack", v) EXCEPT !.sp = TRUE], 16), Sized([Pk("connack", v) EXCEPT !.rc = IF v = "v50" THEN 135 ELSE 5], 16) }
         ELSE {})
 
 CanBeClient(s) == s.role \in {"client", "any"}
@@ -133,10 +136,10 @@ EnvChoices(s, gh) ==
                : p \in UNION { ConnectPkts(v) : v \in (IF s.ver = "undet" THEN {"v311", "v50"} ELSE {s.ver}) } } ELSE {})
   \cup (IF ~quiet /\ gh.conn = "connecting" /\ gh.client
         THEN { [Call("recv") EXCEPT !.pkt = p, !.flag = TRUE] : p \in ConnackPkts(s.ver) } ELSE {})
-  \cup (IF ~quiet /\ gh.conn = "connecting" /\ ~gh.client
+  \cup (IF (~quiet /\ gh.conn = "connecting" /\ ~gh.client) \/ (LateSends /\ gh.closeReq /\ gh.tr /\ ~gh.client /\ s.ver # "undet")
         THEN { [Call("send") EXCEPT !.pkt = p] : p \in ConnackPkts(s.ver) } ELSE {})
   (* application traffic *)
-  \cup (IF ~quiet /\ (gh.conn = "connected" \/ SendWhileDisc)
+  \cup (IF (~quiet /\ (gh.conn = "connected" \/ SendWhileDisc)) \/ (LateSends /\ gh.closeReq /\ gh.tr /\ ~s.partial)
         THEN { [Call("send") EXCEPT !.pkt = p] : p \in AppSends(s, gh) } ELSE {})
   (* peer traffic *)
   \cup (IF (~quiet /\ ((gh.conn = "connected" /\ gh.tr) \/ PeerWhileDisc)) \/ (LateFrames /\ gh.closeReq /\ gh.tr /\ ~s.partial)
